@@ -3,10 +3,9 @@ From Coq Require Import NArith List Bool Arith Lia.
 Require Import CCP.Lib.PyStr CCP.Lib.Res CCP.gen.TabC09 CCP.Model.IO.
 Import ListNotations.
 
-Lemma tables_as_modelled :
-  linesplit_rgx_src = [92; 114; 42; 92; 110]%N /\ save_newline_src = [LF] /\ openargs_newline_none = true
-  /\ is_linebreak LF = true /\ is_linebreak CR = true.
-Proof. repeat split; reflexivity. Qed.
+(* what the proofs need from the regenerated str.splitlines table: LF and CR are boundaries *)
+Lemma tables_as_modelled : is_linebreak LF = true /\ is_linebreak CR = true.
+Proof. split; reflexivity. Qed.
 
 (* ------------------------------------------------------------------ small facts *)
 Lemma is_cr_CR : is_cr CR = true. Proof. reflexivity. Qed.
